@@ -324,6 +324,10 @@ func (e *Engine) globalObj(g *ssa.Global) *Object {
 		o := e.allocGlobal(g)
 		o.Persistent = true
 		e.persistGlobals[g] = o
+		if pkg != nil && pkg.Pkg.Path() == "os" && g.Name() == "Args" {
+			ao := &Object{ID: -1, Cells: []Value{e.constString("prog")}, Name: "os.Args", Persistent: true}
+			o.Cells[0] = Slice{Obj: ao, Off: e.c64(0), Len: e.c64(1), Cap: e.c64(1)}
+		}
 		return o
 	}
 	if o, ok := e.p.globals[g]; ok {
@@ -385,7 +389,7 @@ func (e *Engine) ensurePersistInit(pkg *ssa.Package) {
 
 // packages whose initialisers are never run (huge tables or irrelevant state)
 var skipInitPkgs = map[string]bool{
-	"unicode": true, "runtime": true, "os": true, "syscall": true, "internal/poll": true, "net": true,
+	"runtime": true, "os": true, "syscall": true, "internal/poll": true, "net": true,
 	"time": true, "reflect": true, "internal/cpu": true, "internal/godebug": true, "crypto/tls": true,
 	"net/http": true, "crypto/x509": true, "internal/reflectlite": true, "math/rand": true, "log": true,
 	"encoding/json": true, "encoding/xml": true, "html": true, "mime": true, "os/signal": true,
@@ -550,7 +554,7 @@ func (e *Engine) step(g *Goroutine) stepResult {
 		e.set(fr, x, e.newChan(n, x.Type().Underlying().(*types.Chan).Elem()))
 		fr.pc++
 	case *ssa.FieldAddr:
-		p := e.get(fr, x.X).(Ptr)
+		p := e.asPtr(e.get(fr, x.X))
 		if p.Obj == nil {
 			e.goPanic(g, "nil pointer dereference (field address)")
 			return stepOK
@@ -601,6 +605,11 @@ func (e *Engine) step(g *Goroutine) stepResult {
 		}
 		fr.pc++
 	case *ssa.Store:
+		if sp, ok := e.get(fr, x.Addr).(SymPtr); ok {
+			e.symStore(sp, e.get(fr, x.Val))
+			fr.pc++
+			return stepOK
+		}
 		p := e.get(fr, x.Addr).(Ptr)
 		if p.Obj == nil {
 			e.goPanic(g, "nil pointer dereference (store)")
